@@ -37,7 +37,7 @@ static ev_src_t *fetch_sub(m_mod_t *mod, const char *topic) {
     }
     
     /* Check if any stored subscriptions is a regex that matches topic */
-    m_itr_foreach(mod->subscriptions, {
+    m_itr_foreach(mod->subscriptions, M_VERIF_LOOP(ps_fetch) {
         sub = m_itr_get(m_itr);
         /* Execute regular expression */
         int ret = regexec(&sub->ps_src.reg, topic, 0, NULL, 0);
@@ -106,7 +106,7 @@ static void tell_subscribers(void *data, void *value) {
     m_ctx_t *c = (m_ctx_t *)value;
     ps_priv_t *msg = (ps_priv_t *)data;
     
-    m_itr_foreach(c->modules, {
+    m_itr_foreach(c->modules, M_VERIF_LOOP(ps_tellsubs) {
         m_mod_t *mod = m_itr_get(m_itr);
         ev_src_t *sub = NULL;
         
@@ -162,7 +162,7 @@ int flush_pubsub_msgs(void *data, const char *key, void *value) {
     }
 
     while (mod->pubsub_fd[0] != -1 &&
-        read(mod->pubsub_fd[0], &mm, sizeof(ps_priv_t *)) == sizeof(ps_priv_t *)) {
+        read(mod->pubsub_fd[0], &mm, sizeof(ps_priv_t *)) == sizeof(ps_priv_t *)) M_VERIF_LOOP(ps_flush) {
         /*
          * Actually tell msg ONLY if we are not stopping the module,
          * ie: we are stopping looping on the context.
